@@ -38,6 +38,7 @@ CHECKS = {
         "parts": [
             {"test": "TestC04", "quick": 2500, "thorough": 30000, "shards": 16, "quick_shards": 2},
             {"test": "TestC04Scale", "quick": 200, "thorough": 1000, "shards": 16, "quick_shards": 2},
+            {"test": "TestC04Many", "rapid": False, "quick": 0, "thorough": 0, "shards": 1},
         ],
         "assumptions": ["`find all` itself is decided by C01; runs above 60000 VM instructions are discarded and counted"],
     },
@@ -49,6 +50,7 @@ CHECKS = {
             {"test": "TestC10Random", "quick": 20000, "thorough": 50000, "shards": 16, "quick_shards": 1},
             {"test": "TestC10Process", "quick": 3000, "thorough": 20000, "shards": 16, "quick_shards": 1},
             {"test": "TestC10Files", "rapid": False, "quick": 0, "thorough": 0, "shards": 1},
+            {"test": "TestC10Data", "rapid": False, "quick": 0, "thorough": 0, "shards": 1},
         ],
         "assumptions": ["verif hook: VM instruction budget (1e6 in the enumerations, whose observed maximum is 1 568; 3e5 as a cost cap elsewhere) and progress measures - a loop activation with more iterations, or calls nested deeper, than the text is long plus 8 is a spin; a budget trip with bounded progress measures in the random part is a long search, not a verdict"],
     },
